@@ -110,10 +110,12 @@ def run(repo: Repo, chk: Check, thorough: bool = False) -> None:
                'dominated by `origin.all is None or origin_name not in origin.all`' if g2 else
                'an object the defining module lists in its own __all__ would be moved away from it', repo.loc(hr.mod, c))
         a = c.args
-        ok = len(a) == 2 and norm(a[1]) == ps[3] and 'current' in norm(a[0])
+        curv = {t.id for n in hr.walk() if isinstance(n, ast.Assign) and norm(n.value) == 'self.builder.current' for t in n.targets if isinstance(t, ast.Name)}
+        ok = len(a) == 2 and norm(a[1]) == ps[3] and (norm(a[0]) in curv or norm(a[0]) == 'self.builder.current')
         chk.ob('R07.2', f'{MV}._handleReExport :: moved to the current module under the exported name', ok, norm(c), repo.loc(hr.mod, c))
     ge = repo.func(f'{MV}._getCurrentModuleExports')
-    ok = any(isinstance(n, ast.If) and 'isinstance(current, model.Module)' in norm(n.test) and n.orelse and
+    ok = any(isinstance(n, ast.If) and isinstance(n.test, ast.Call) and call_name(n.test) == 'isinstance' and
+             norm(n.test.args[1]) == 'model.Module' and n.orelse and
              any(isinstance(s, ast.Assign) and isinstance(s.value, ast.List) and not s.value.elts for s in n.orelse) for n in ge.walk())
     chk.ob('R07.2', f'{MV}._getCurrentModuleExports :: nothing is exported from class/function scopes', ok,
            'exports = [] unless the current scope is a module' if ok else 'imports inside classes could trigger a move', ge.loc)
